@@ -169,8 +169,8 @@ run_cmd do
     match env.find? n with
     | some (.thmInfo _) =>
       if n.isInternalDetail then continue
-      let (_, s) := ((CollectAxioms.collect n).run env).run {}
-      logInfo m!"THEOREM {n} AXIOMS {s.axioms.toList}"
+      let axs ← Lean.collectAxioms n
+      logInfo m!"THEOREM {n} AXIOMS {axs.toList}"
     | _ => pure ()
 '''
 
